@@ -676,3 +676,14 @@ impl AssemblyWindow {
         self.max_alloc
     }
 }
+
+#[cfg(uflow_verif)]
+impl AssemblyWindow {
+    /// Bytes of reassembly buffer actually held for partially assembled packets
+    pub fn verif_held_bytes(&self) -> usize {
+        self.window.iter().map(|entry| match entry {
+            WindowEntry::Active(active) => active.asm_buffer.verif_capacity(),
+            _ => 0,
+        }).sum()
+    }
+}
